@@ -1109,6 +1109,9 @@ class PathEval:
                         self._walk(t["target"], st2, blocks, evs2, onpath, out, stop_at)
                     return
                 summ = self._inline_summary(path) if self.inline else None
+                if summ is not None and (self.fx.fns.get(path) or {}).get("kind") == "Closure" and len(args) == 2 and isinstance(args[1], tuple) and args[1][:2] == ("agg", "tuple"):
+                    # a closure is called with its arguments packed in one tuple; its body names them one by one
+                    args = (args[0],) + tuple(args[1][4])
                 if summ is not None:
                     # a helper introduced after the rules were written: splice its paths in instead of an opaque call
                     events = events[:-1]
